@@ -1,11 +1,16 @@
 \* quick-tier universe, unmutated mechanism (MC_C19_thorough.cfg: every documented value of
-\* every flag; MC_C19_mut_*.cfg: spec mutants on which TLC must report a law violated)
+\* every flag, every file-name extension, --debug / --inspect; MC_C19_mut_*.cfg: spec mutants on
+\* which TLC must report a law violated).  Extension "any": the harness draws one per run.
 CONSTANTS
   Mutant = "none"
   SFmts = {"default", "json", "python-full", "bad"}
   TFmts = {"default", "python", "yaml", "toml", "bad"}
   Indents = {"default", "0"}
   TxtIds = {"qstr1", "qstr2", "blit", "bboth", "bare", "baresx", "bbad", "bname", "texpo", "texpb", "advb", "advq", "advo"}
+  Argvs = {"ok", "badindent", "toomany", "unknownflag"}
+  SExts = {"any", ".py"}
+  TExts = {"any"}
+  Dbgs = {"off"}
 INIT Init
 NEXT Next
 INVARIANT ExecOnlyFull
@@ -14,6 +19,7 @@ INVARIANT DefaultRoutes
 INVARIANT ResultLaw
 INVARIANT GlomErrorLaw
 INVARIANT TargetUsageLaw
+INVARIANT ArgvLaw
 INVARIANT LawStored
 INVARIANT NoStuck
 INVARIANT KnownPrefix
